@@ -482,7 +482,7 @@ int main(int argc, char **argv) {
   for (int sc = 0; sc < nscen; sc++) {
     if (only >= 0 && sc != only) continue;
     if (g_deadline > 0 && now() > g_deadline) { X->deadline_hit = 1; break; }
-    if (g_deadline > 0) { int left = 0; for (int q = sc; q < nscen; q++) if (only < 0 || q == only) left++; double rem = g_deadline - now(); double share = rem / (left > 0 ? left : 1) * 4.0; if (share < 30) share = 30; g_scen_deadline = now() + share; } /* a scenario may use up to three times its even share; what it does not use goes to the later ones */
+    if (g_deadline > 0) { int left = 0; for (int q = sc; q < nscen; q++) if (only < 0 || q == only) left++; double rem = g_deadline - now(); double share = rem / (left > 0 ? left : 1) * 6.0; if (share < 60) share = 60; g_scen_deadline = now() + share; } /* a scenario may use up to three times its even share; what it does not use goes to the later ones */
     hb_select(sc); g_scen = sc;
     hb_prepare(); /* operands + sequential reference digests, before any fork */
     X->head = 0; X->tail = 0; X->active = 0; X->stop = 0;
